@@ -151,7 +151,7 @@ func roundTrip(class string, h *keyset.Handle, stream int64) map[string]any {
 func doTpl(c *planCase) []vt.Ev {
 	hclass := jsonStr(c, "hclass")
 	ev := vt.Ev{"ev": "tpl", "name": c.Name, "kt": c.Kt, "p": c.field("p"), "found": false, "panic": false, "url": "", "prefix": "", "value": "",
-		"wantBuilt": false, "parse": false, "eq": false, "eqRev": false, "reg": emptyKD(),
+		"wantBuilt": false, "parse": false, "eq": false, "eqRev": false, "lite": false, "reg": emptyKD(),
 		"nk": map[string]any{"panic": false, "err": true, "name": ""},
 		"h": map[string]any{"panic": false, "err": true, "n": 0, "primary": false, "status": "", "keyId": "", "idreq": "", "prefix": "", "url": "", "material": "", "eq": false, "eqRev": false},
 		"rk": emptyTrip(), "nh": emptyTrip()}
@@ -202,19 +202,23 @@ func doTpl(c *planCase) []vt.Ev {
 		tplParams = p
 	}
 	// ---- registry.NewKeyData(template) and the deprecated registry.NewKey(template)
+	lite := !vt.Thorough() && expensive(c.P)
+	ev["lite"] = lite
 	var kd *tinkpb.KeyData
 	rr := ev["reg"].(map[string]any)
 	if pan, _ := vt.Try(func() { kd, err = registry.NewKeyData(proto.Clone(tpl).(*tinkpb.KeyTemplate)) }); pan {
 		rr["panic"] = true
 	} else if err == nil && kd != nil {
 		describeKD(rr, kd, rawPT, tplParams, wantRaw)
-		if kd2, err := registry.NewKeyData(proto.Clone(tpl).(*tinkpb.KeyTemplate)); err == nil && kd2 != nil {
+		if lite {
+		} else if kd2, err := registry.NewKeyData(proto.Clone(tpl).(*tinkpb.KeyTemplate)); err == nil && kd2 != nil {
 			rr["fresh"] = string(kd.GetValue()) != string(kd2.GetValue())
 		}
 	}
 	nk := ev["nk"].(map[string]any)
 	var msg proto.Message
-	if pan, _ := vt.Try(func() { msg, err = registry.NewKey(proto.Clone(tpl).(*tinkpb.KeyTemplate)) }); pan {
+	if lite {
+	} else if pan, _ := vt.Try(func() { msg, err = registry.NewKey(proto.Clone(tpl).(*tinkpb.KeyTemplate)) }); pan {
 		nk["panic"] = true
 	} else if err == nil && msg != nil {
 		nk["err"], nk["name"] = false, string(msg.ProtoReflect().Descriptor().FullName())
